@@ -22,6 +22,11 @@ func init() {
 	profiles["C04"] = &profile{
 		config: func(r *RNG, thorough bool) *RunConfig {
 			cfg := baseConfig("C04", r, thorough)
+			if rf := NewRNG(Mix(r.U64(), 0x66726d65)); rf.Bool(0.2) {
+				// persistent nodes whose database now and then refuses the write of a frame
+				cfg.PFrameErr = 0.1
+				defer func() { mixStores(cfg, rf, 0.6) }()
+			}
 			if ra := NewRNG(Mix(r.U64(), 0x6173796e)); ra.Bool(0.3) {
 				// overlapping gossips of one node (legs held back, lock gaps)
 				cfg.PAsync = 0.1 + 0.3*ra.Float()
@@ -77,6 +82,11 @@ func init() {
 	profiles["C05"] = &profile{
 		config: func(r *RNG, thorough bool) *RunConfig {
 			cfg := baseConfig("C05", r, thorough)
+			if rf := NewRNG(Mix(r.U64(), 0x66726d65)); rf.Bool(0.2) {
+				// persistent nodes whose database now and then refuses the write of a frame
+				cfg.PFrameErr = 0.1
+				defer func() { mixStores(cfg, rf, 0.6) }()
+			}
 			cfg.PSubmit = 0.25 + 0.25*r.Float()
 			cfg.FairSuffix = true
 			if r.Bool(0.5) {
